@@ -1,5 +1,6 @@
 import SeataModel.Driver.Util
 import SeataModel.TCC.Fence
+import SeataModel.TCC.FenceRace
 namespace Seata.Driver.C06
 open Seata.Fence Seata.Driver
 
@@ -30,6 +31,23 @@ def parseDelivery (t : String) : Option Delivery :=
 def handle (ws : List String) : String :=
   match ws with
   | ["skip"] => "skip"      -- a case decided by the oracle on the implementation alone
+  | ["race", pfx, a, b, k] =>
+    -- two deliveries racing after a prefix of clean deliveries: a is held up at its k-th statement (BEGIN
+    -- is the first), b runs from start to end in the gap.  Output: the outcome of exactly that interleaving,
+    -- then every outcome the property allows.
+    let ph (c : Char) : Option Phase := match c with | 'P' => some .prepare | 'C' => some .commit | 'R' => some .rollback | _ => none
+    let pre := if pfx == "-" then some [] else pfx.toList.mapM ph
+    (match pre, a.toList.head? >>= ph, b.toList.head? >>= ph, k.toNat? with
+     | some pre, some pa, some pb, some k =>
+       let db := pre.foldl (fun s p => (deliver p none false s).1) ({} : BranchSt)
+       let ws := List.replicate (k - 2) true ++ List.replicate 4 false ++ List.replicate (8 - 4 - (k - 2)) true
+       let showO (o : BranchSt × Option Res × Option Res) : String :=
+         let r (x : Option Res) := match x with | some .ok => "ok" | _ => "refused"
+         s!"{showStatus o.1.row}:{o.1.tries}/{o.1.confirms}/{o.1.cancels} {r o.2.1} {r o.2.2}"
+       let exp := showO (Race.outcome pa pb db ws)
+       let all := ((Race.allowed pa pb db).map showO).eraseDups
+       s!"exp=[{exp}] allowed=[{"|".intercalate all}]"
+     | _, _, _, _ => "bad-op")
   | "seq" :: toks =>
     match toks.mapM parseDelivery with
     | none => "bad-op"
